@@ -40,8 +40,10 @@ def run(rep: Report) -> None:
         hidden = None
         for p in ck.paths:
             for e in p.events:
-                if e[0] in ("memoised", "extra-attr-store", "net-attr-store"):
+                if e[0] in ("memoised", "extra-attr-store", "net-attr-store", "var-not-fresh"):
                     hidden = e
+                if e[0] == "iterates-all-links" and bad is None:
+                    bad = ("SELF", "rho", None, [("s", e[2])])
             if p.raised and "contributes a whole vector" in (p.raised[2] or "") and bad is None:
                 bad = ("SELF", "v", None, [("s", p.raised[2][7:140])])
         for (path, role, var, pos, extra) in ck.support_extras:
